@@ -183,6 +183,13 @@ def r3_job_table(ctx):
             res = v.kw("results")
             fresh = isinstance(res, dict) and not res
         jobs_after = st[0].data["base"]
+        ls0 = v.fields.get("last_seen") if isinstance(v, Obj) else None
+        pr0 = v.fields.get("progress") if isinstance(v, Obj) else None
+        if isinstance(v, Obj) and not (isinstance(ls0, (int, float)) and not isinstance(ls0, bool) and ls0 <= 0):
+            ctx.violation("C18.R3", fi.qual, loc(fi, st[0].node), "initial last_seen precedes every report",
+                          f"a new job starts with last_seen={vkey(ls0)[:60]}; report timestamps come from the controller's own clock, so the initial mark must be a constant below every "
+                          f"possible timestamp (e.g. -1) — otherwise genuine progress reports are dropped as 'older'")
+            continue
         if fresh is None:
             ctx.undecided("C18.R3", loc(fi, st[0].node), f"cannot see how the new Job is built: {vkey(v)[:120]}")
         elif not fresh:
